@@ -13,6 +13,15 @@ operations spelled as attributes is_valid, convex_hull, length, area) fails with
 assign_lines_to_regions for all single regions (thorough: all sets of 1..2) x all sets of 1..2 baselines, and of LayoutExtractor.process_page
 for 2 scenarios x 16 option combinations.  The call may raise; what it returns is judged like any result, except that no line is DEMANDED.
 
+Histories of two uses (results belong to the caller, detection arrays to the detector): every single region x sets of 1..2 baselines and every
+pair of regions x single baselines (thorough: 1..2): (edit-placed) every placed line is moved in place in turn - all other placed lines stay what
+they were - then the same detection objects are assigned again; (refill) the detection arrays are refilled in place with the next page and assigned
+again - the first result stays what it was, the second is that of the arrays as they are now.  The same with ONE LayoutExtractor processing two
+pages with a detector that re-uses its output arrays (16 option combinations x all scenarios).
+Comb sub-sweep: a rectangle with two notches (shallow / deep, two of four slots, also upside down) x a horizontal baseline at four levels x three
+height pairs x both point orders: notches that cut the baseline but not the whole outline, so that outline and baseline fall into different
+numbers of pieces and the longest baseline piece is not in the largest outline piece.
+
 Oracle: shapely predicates evaluated on the OUTPUTS (containment, longest piece recomputed independently, id uniqueness).
 """
 import itertools
@@ -23,7 +32,7 @@ ID = 'C11'
 
 MANIFEST = dict(
     technique='explicit-state enumeration of a region-polygon x baseline lattice on the real assign_lines_to_regions, and of all option combinations of the real LayoutExtractor.process_page / TextlineExtractorSimple with stub detectors; geometric oracle on the outputs',
-    text='Bounded exhaustive: every set of 1-2 (quick) / 1-3 (thorough) regions over a 10-polygon alphabet (convex, concave, self-intersecting, self-touching, nested, overlapping, disjoint) x every set of 1-3 baselines over a 13-line alphabet (about 16 000 / 58 000 configurations). Every placed line must lie inside its region with a baseline that is a piece of the detected one and an outline clipped to the region; wholly-inside lines longer than 2 px must be placed unchanged, untouched regions get nothing, multiple entries keep the longest piece, and all ids of a page are distinct (also as keys of the logits dictionary). All 16 option combinations of the layout extractor with a stub detector and the simple text-line extractor are driven through the same oracle. Added sub-sweeps: detections held as int32 / int64 / float32 arrays, a self-touching region, MERGE_LINES scenarios (a three-fragment row, zero heights, tilted text with nothing to merge) and the coverage clause for merged lines. Baselines of 2 x 2 px extent that are longer than 2 px (diagonal, hook). Environment answers: one GEOS operation called by the library (intersects / intersection, thorough tier also is_valid / convex_hull / length / area) fails with TopologicalError or GEOSException, every fault point of the assignment for every single region (thorough: 1-2 regions) x 1-2 baselines and of the layout extractor for two scenarios x 16 option combinations: the call may raise, but whatever it returns must still lie inside the region polygons (not merely their hulls), be clipped pieces of detections, never sit in an untouched region and carry distinct ids.',
+    text='Bounded exhaustive: every set of 1-2 (quick) / 1-3 (thorough) regions over a 10-polygon alphabet (convex, concave, self-intersecting, self-touching, nested, overlapping, disjoint) x every set of 1-3 baselines over a 13-line alphabet (about 16 000 / 58 000 configurations). Every placed line must lie inside its region with a baseline that is a piece of the detected one and an outline clipped to the region; wholly-inside lines longer than 2 px must be placed unchanged, untouched regions get nothing, multiple entries keep the longest piece, and all ids of a page are distinct (also as keys of the logits dictionary). All 16 option combinations of the layout extractor with a stub detector and the simple text-line extractor are driven through the same oracle. Added sub-sweeps: detections held as int32 / int64 / float32 arrays, a self-touching region, MERGE_LINES scenarios (a three-fragment row, zero heights, tilted text with nothing to merge) and the coverage clause for merged lines. Baselines of 2 x 2 px extent that are longer than 2 px (diagonal, hook). Environment answers: one GEOS operation called by the library (intersects / intersection, thorough tier also is_valid / convex_hull / length / area) fails with TopologicalError or GEOSException, every fault point of the assignment for every single region (thorough: 1-2 regions) x 1-2 baselines and of the layout extractor for two scenarios x 16 option combinations: the call may raise, but whatever it returns must still lie inside the region polygons (not merely their hulls), be clipped pieces of detections, never sit in an untouched region and carry distinct ids. Histories of two uses: after an assignment every placed line is moved in place in turn (the other placed lines must stay what they were) and the same detection objects are assigned again; or the detection arrays are refilled in place with the next page and assigned again (the first result must stay what it was, the second is that of the arrays as they are now) - every single region x 1-2 baselines, every pair of regions x 1 (thorough: 1-2) baselines, and one LayoutExtractor processing two pages with a detector that re-uses its output arrays (16 option combinations x all scenarios). Comb sub-sweep (1152 cases): a rectangle with two notches, each shallow or deep, at two of four slots, also upside down, x a horizontal baseline at four levels x three (up, down) height pairs x both point orders, so that a notch cuts nothing / the outline margin / the baseline but not the whole outline / the whole line: the longest baseline piece must be kept also when it is not in the largest outline piece.',
     note='For invalid (self-intersecting / self-touching) region polygons the convex hull is the reference shape (that is what the code documents); a baseline that additionally touches the region in isolated points may be placed or not. After an injected failure of a geometry operation the clauses that demand a line in a region are not applied (the failure may cost the line).',
     ref='3/C11')
 
@@ -61,12 +70,30 @@ LINES = [
 HEIGHTS = [4, 2]
 # geos_*: the sub-sweep 'one GEOS operation called by the library fails' (see check_assign): region sets up to geos_regions, line sets up to
 # geos_lines; geos_props: also the operations spelled as attributes (is_valid, convex_hull, length, area)
-BOUNDS = {'quick': dict(max_regions=2, geos_regions=1, geos_lines=2, geos_props=0),
-          'thorough': dict(max_regions=3, geos_regions=2, geos_lines=2, geos_props=1)}
+# hist_pair_lines: the histories (HISTORIES) run for every single region x every set of 1..2 baselines and for every PAIR of regions x every set
+# of 1..hist_pair_lines baselines
+BOUNDS = {'quick': dict(max_regions=2, geos_regions=1, geos_lines=2, geos_props=0, hist_pair_lines=1),
+          'thorough': dict(max_regions=3, geos_regions=2, geos_lines=2, geos_props=1, hist_pair_lines=2)}
 BOUNDS['replay'] = BOUNDS['quick']
 GEOS_ERRORS = ['TopologicalError', 'GEOSException']   # what shapely 1 raised (and the library has an except clause for) / what shapely 2 raises
 GEOS_EXTRACTOR_SCENARIOS = [0, 1]                      # several regions and orientations / the U-shaped region crossed twice
 EPS = 1e-6
+# histories of two uses (the results of an assignment belong to the caller, the detection arrays to the detector):
+#  edit-placed: assign; the caller refines every placed line in place, one after the other - all OTHER placed lines must still be what they
+#               were; then the same detection objects are assigned again (fresh regions): the result is that of the detections
+#  refill:      assign; the detector writes the next page's detections (the same content moved by NEXT_PAGE_SHIFT, regions too) into the SAME arrays;
+#               assign again: the first result
+#               must still be what it was, the second is that of the arrays as they are now
+HISTORIES = ['edit-placed', 'refill']
+NEXT_PAGE_SHIFT = (4.0, 3.0)
+# comb sub-sweep (outline and baseline of one line cut DIFFERENTLY by one region): a 90 x 55 rectangle with two notches, each either shallow or
+# deep, at two of four slots; a horizontal baseline at four levels x three (up, down) height pairs, so that a notch cuts nothing / only the
+# outline's lower margin / the baseline but not the whole outline / the whole line; both point orders; the comb also upside down
+COMB_SLOTS = [(21, 26), (36, 41), (56, 61), (73, 78)]
+COMB_TIPS = {'shallow': 31, 'deep': 11}       # y of the tip of a notch cut from the bottom edge (y = 60); never level +- a height (no edge of an outline lies ON a tip)
+COMB_LEVELS = [20, 26, 34, 45]
+COMB_HEIGHTS = [[8, 2], [2, 8], [4, 2]]
+COMB_X = (8, 93)
 
 
 def setup(tier):
@@ -80,6 +107,10 @@ def shards(tier):
         for first in range(n):
             out.append({'kind': 'assign', 'nreg': r, 'first': first})
     out.append({'kind': 'extractor'})
+    out.append({'kind': 'extractor-pages'})
+    for flip in (0, 1):
+        for slots in itertools.combinations(range(len(COMB_SLOTS)), 2):
+            out.append({'kind': 'comb', 'slots': list(slots), 'flip': flip})
     for scen in GEOS_EXTRACTOR_SCENARIOS:
         out.append({'kind': 'extractor-geos', 'scenario': scen})
     return out
@@ -97,6 +128,19 @@ def run_shard(shard, ctx, tier):
             guarded_check(mod, {'simple': scen}, ctx)
         return
     B = BOUNDS[tier]
+    if shard['kind'] == 'extractor-pages':
+        for opts in itertools.product((0, 1), repeat=4):
+            for scen in range(len(SCENARIOS)):
+                guarded_check(mod, {'extractor': list(opts), 'scenario': scen, 'pages': 2}, ctx)
+        return
+    if shard['kind'] == 'comb':
+        for depths in itertools.product(sorted(COMB_TIPS), repeat=2):
+            for level in range(len(COMB_LEVELS)):
+                for h in range(len(COMB_HEIGHTS)):
+                    for rev in (0, 1):
+                        guarded_check(mod, {'comb': {'slots': shard['slots'], 'depths': list(depths), 'flip': shard['flip']},
+                                            'level': level, 'h': h, 'rev': rev}, ctx)
+        return
     if shard['kind'] == 'extractor-geos':
         for opts in itertools.product((0, 1), repeat=4):
             for exc in GEOS_ERRORS:
@@ -111,6 +155,9 @@ def run_shard(shard, ctx, tier):
                 if shard['nreg'] == 1 and k <= 2:
                     for dt in ('int32', 'int64', 'float32'):      # detections held in integer / single-precision arrays (rounded to pixels)
                         guarded_check(mod, {'regions': regs, 'lines': list(ls), 'dt': dt}, ctx)
+                if (shard['nreg'] == 1 and k <= 2) or (shard['nreg'] == 2 and k <= B['hist_pair_lines']):
+                    for hist in HISTORIES:                        # two uses in a row: results kept by the caller, detection arrays re-used
+                        guarded_check(mod, {'regions': regs, 'lines': list(ls), 'history': hist}, ctx)
                 if shard['nreg'] <= B['geos_regions'] and k <= B['geos_lines']:
                     for exc in GEOS_ERRORS:                       # environment answer: ONE GEOS operation the library calls fails, every fault point
                         guarded_check(mod, {'regions': regs, 'lines': list(ls), 'geos_fails': exc, 'geos_props': B['geos_props']}, ctx)
@@ -287,11 +334,135 @@ def check_assign_geos(case, ctx):
             return
 
 
+# ------------------------------------------------------------------ histories: results kept by the caller, detection arrays re-used
+def snapshot(regions):
+    """what the caller sees of a result: (region id, line id) -> copies of baseline and outline"""
+    return {(r.id, i, ln.id): (np.array(ln.baseline, dtype=np.float64), np.array(ln.polygon, dtype=np.float64)) for r in regions for i, ln in enumerate(r.lines)}
+
+
+def first_difference(regions, expected):
+    """None if the result is (still) what `expected` says, else a description of the first line that is not"""
+    now = snapshot(regions)
+    if sorted(now) != sorted(expected):
+        return f'lines {sorted(k[2] for k in now)} instead of {sorted(k[2] for k in expected)}'
+    for k in sorted(expected):
+        for what, a, b in zip(('baseline', 'outline'), now[k], expected[k]):
+            if a.shape != b.shape or not (np.abs(a - b).max() <= 1e-9 if a.size else True):      # (NaN-aware)
+                return f'{what} of line {k[2]} in region {k[0]} is {a.round(2).tolist()}, it was {b.round(2).tolist()}'
+    return None
+
+
+def check_assign_history(case, ctx):
+    from pero_ocr.core.layout import RegionLayout
+    from pero_ocr.layout_engines.layout_helpers import assign_lines_to_regions
+    hist = case['history']
+    inputs = make_inputs(case['lines'])                       # pristine, never handed to the library
+    b_list, t_list = [b.copy() for b, _ in inputs], [o.copy() for _, o in inputs]      # the detector's arrays
+    ctx.state((tuple(case['regions']), tuple(case['lines']), 'history', hist))
+    fresh = lambda shift=(0.0, 0.0): [RegionLayout(f'r{i}', np.asarray(REGIONS[i], dtype=np.float64) + np.asarray(shift)) for i in case['regions']]
+    desc = f'regions {[REGIONS[i] for i in case["regions"]]}, baselines {[LINES[i] for i in case["lines"]]}'
+    first = assign_lines_to_regions(b_list, [list(HEIGHTS) for _ in inputs], t_list, fresh())
+    ctx.executed()
+    if not check_regions(first, inputs, ctx, f'{ID}/assign', desc, case):
+        return
+    expected = snapshot(first)
+    if hist == 'edit-placed':
+        placed = [(r, i, ln) for r in first for i, ln in enumerate(r.lines)]
+        if any(not (np.asarray(ln.baseline).flags.writeable and np.asarray(ln.polygon).flags.writeable) for _, _, ln in placed):
+            ctx.tag('placed-line-arrays-read-only')          # nothing the caller could edit in place
+            return
+        for r, i, ln in placed:
+            ln.baseline[:, 1] -= 3                           # the caller refines this line (and only this line) in place
+            ln.polygon[:, 1] -= 3
+            b, o = expected[(r.id, i, ln.id)]
+            b[:, 1] -= 3
+            o[:, 1] -= 3
+            diff = first_difference(first, expected)
+            if diff:
+                ctx.violation('baseline-is-piece-of-detected-baseline', f'{ID}/assign/kept-result/another-placed-line-changes-when-one-placed-line-is-edited-in-place',
+                              f'{desc}: after line {ln.id} of region {r.id} was moved 3 px up in place: {diff}', case)
+                return
+        if len(placed) >= 2:
+            ctx.tag('placed-line-edited-in-place-others-kept')
+        second_inputs, K2 = inputs, f'{ID}/assign/second-call-after-placed-lines-were-edited-in-place'
+        d2 = f'{desc}; the lines placed by a first call were moved in place, then the same detection objects are assigned again'
+    else:
+        shift = np.asarray(NEXT_PAGE_SHIFT)
+        second_inputs = [(b + shift, o + shift) for b, o in inputs]
+        for dst_b, dst_o, (b, o) in zip(b_list, t_list, second_inputs):      # the detector writes the next page into the same arrays
+            dst_b[:] = b
+            dst_o[:] = o
+        K2 = f'{ID}/assign/second-call-on-refilled-detection-arrays'
+        d2 = f'{desc}; second call with the same detection arrays refilled in place (the next page: regions and detections moved by {NEXT_PAGE_SHIFT})'
+    second = assign_lines_to_regions(b_list, [list(HEIGHTS) for _ in inputs], t_list, fresh(NEXT_PAGE_SHIFT if hist == 'refill' else (0.0, 0.0)))
+    ctx.executed()
+    if hist == 'refill':
+        diff = first_difference(first, expected)
+        if diff:
+            ctx.violation('baseline-is-piece-of-detected-baseline', f'{ID}/assign/kept-result/first-result-changes-when-the-detection-arrays-are-refilled-for-a-second-call',
+                          f'{desc}: after the detection arrays were refilled (moved by {NEXT_PAGE_SHIFT}) and assigned again: {diff}', case)
+            return
+        if expected:
+            ctx.tag('first-result-kept-while-detection-arrays-are-refilled')
+    if not check_regions(second, second_inputs, ctx, K2, d2, case):
+        return
+    n1, n2 = sum(len(r.lines) for r in first), sum(len(r.lines) for r in second)
+    if n1 != n2:
+        ctx.violation('wholly-inside-line-always-placed', f'{K2}/different-number-of-lines', f'{d2}: {n2} lines, the first call placed {n1}', case)
+        return
+    ctx.tag('second-call-same-detection-objects')
+    ctx.outcome((tuple(case['regions']), hist, n1))
+    if n1 >= 2:
+        ctx.nontrivial((tuple(case['regions']), tuple(case['lines']), hist), 'history-with-several-placed-lines')
+
+
+# ------------------------------------------------------------------ comb: outline and baseline cut differently
+def comb_polygon(slots, depths, flip):
+    pts = [(5, 5), (95, 5), (95, 60)]
+    for (x0, x1), d in sorted(zip([COMB_SLOTS[i] for i in slots], depths), reverse=True):
+        pts += [(x1, 60), (x1, COMB_TIPS[d]), (x0, COMB_TIPS[d]), (x0, 60)]
+    pts.append((5, 60))
+    return [(x, 65 - y) for x, y in pts] if flip else pts
+
+
+def check_comb(case, ctx):
+    import shapely.geometry as sg
+    from pero_ocr.core.layout import RegionLayout
+    from pero_ocr.layout_engines.layout_helpers import assign_lines_to_regions, baseline_to_textline
+    c = case['comb']
+    poly = comb_polygon(c['slots'], c['depths'], c['flip'])
+    y = COMB_LEVELS[case['level']]
+    y = 65 - y if c['flip'] else y
+    pts = [(COMB_X[0], y), (COMB_X[1], y)]
+    b = np.asarray(pts[::-1] if case['rev'] else pts, dtype=np.float64)
+    heights = COMB_HEIGHTS[case['h']]
+    inputs = [(b, baseline_to_textline(b, heights))]
+    ctx.state(('comb', tuple(c['slots']), tuple(c['depths']), c['flip'], case['level'], case['h'], case['rev']))
+    shape = ref_shape(poly)
+    bp, _ = line_pieces(shape.intersection(sg.LineString(b)))
+    oi = shape.intersection(sg.Polygon(inputs[0][1]))
+    op = [g for g in (oi.geoms if hasattr(oi, 'geoms') else [oi]) if isinstance(g, sg.Polygon) and g.area > 0]
+    out = assign_lines_to_regions([b.copy()], [list(heights)], [inputs[0][1].copy()], [RegionLayout('r0', np.asarray(poly, dtype=np.float64))])
+    ctx.executed()
+    desc = f'region {poly}, baseline {b.tolist()}, heights {heights}'
+    if not check_regions(out, inputs, ctx, f'{ID}/assign-comb', desc, case):
+        return
+    ctx.outcome(('comb', len(bp), len(op), [round(float(sg.LineString(ln.baseline).length)) for ln in out[0].lines]))
+    if len(bp) > 1:
+        ctx.nontrivial(('comb', tuple(c['slots']), tuple(c['depths']), c['flip'], case['level'], case['h'], case['rev']), 'comb-baseline-in-several-pieces')
+    if len(bp) > 1 and len(op) > 1 and len(bp) != len(op):
+        ctx.tag('comb-outline-and-baseline-cut-differently')
+        if not max(bp, key=lambda g: g.length).intersects(max(op, key=lambda g: g.area)):
+            ctx.tag('comb-longest-baseline-piece-outside-largest-outline-piece')
+
+
 def check_assign(case, ctx):
     from pero_ocr.core.layout import RegionLayout, PageLayout
     from pero_ocr.layout_engines.layout_helpers import assign_lines_to_regions
     if case.get('geos_fails'):
         return check_assign_geos(case, ctx)
+    if case.get('history'):
+        return check_assign_history(case, ctx)
     regs = [RegionLayout(f'r{i}', np.asarray(REGIONS[i], dtype=np.float64)) for i in case['regions']]
     inputs = make_inputs(case['lines'], dt=case.get('dt'))
     ctx.state((tuple(case['regions']), tuple(case['lines']), case.get('dt')))
@@ -359,6 +530,69 @@ class StubEngine:
         return b, [list(HEIGHTS) for _ in b], [baseline_to_textline(x, HEIGHTS) for x in b]
 
 
+class BufferedStubEngine(StubEngine):
+    """a detector that writes the line detections of every page into the same pre-allocated arrays (one set per orientation), a common pattern
+    of inference engines; `shift` is where the content of the current page lies.  Region polygons and heights are new objects on every call"""
+    def __init__(self, scenario):
+        StubEngine.__init__(self, scenario)
+        self.shift = np.zeros(2)
+        self.buffers = {}
+
+    def detect(self, img, rot=0):
+        p, b, h, t = StubEngine.detect(self, img, rot)
+        if rot not in self.buffers:
+            self.buffers[rot] = ([np.zeros_like(x) for x in b], [np.zeros_like(x) for x in t])
+        bb, tb = self.buffers[rot]
+        for dst, x in zip(bb + tb, b + t):
+            dst[:] = x + self.shift
+        return [x + self.shift for x in p], list(bb), h, list(tb)
+
+
+def check_extractor_pages(case, ctx):
+    """ONE LayoutExtractor, two pages one after the other, a detector that re-uses its output arrays: the second page is judged like any page,
+    and the first page - a finished result the caller holds - must still be what it was"""
+    from pero_ocr.core.layout import PageLayout, RegionLayout
+    dr, dl, ml, mo = case['extractor']
+    scen = SCENARIOS[case['scenario']]
+    ex = make_extractor(dr, dl, ml, mo)
+    ex.engine = BufferedStubEngine(scen)
+    rots = [0, 1, 3] if mo else [0]
+    all_lines = sorted({i for r in rots for i in scen[r][1]}, key=str)
+    base = make_inputs(all_lines, scen.get('heights', HEIGHTS))
+    desc = (f'LayoutExtractor(detect_regions={bool(dr)}, detect_lines={bool(dl)}, merge_lines={bool(ml)}, multi_orientation={bool(mo)}), '
+            f'stub detections per rotation {scen}, written into the same arrays for every page')
+    key = f'{ID}/LayoutExtractor/' + ('regions-kept' if not dr else 'regions-detected') + ('+multi-orientation' if mo else '')
+    ctx.state(('extractor-pages', tuple(case['extractor']), case['scenario']))
+    pages, kept = [], None
+    for k in range(case['pages']):
+        shift = np.asarray(NEXT_PAGE_SHIFT) * k
+        ex.engine.shift = shift
+        page = PageLayout(id=f'p{k}', page_size=(120, 120))
+        if not dr:
+            page.regions = [RegionLayout(f'r{i:03d}', np.asarray(REGIONS[i], dtype=np.float64) + shift) for i in scen[0][0]]
+        out = ex.process_page(np.zeros((120, 120, 3), np.uint8), page)
+        ctx.executed()
+        pages.append(out)
+        if k:
+            diff = first_difference(pages[0].regions, kept)
+            if diff:
+                ctx.violation('placed-line-lies-inside-region', f'{key}/kept-result/first-page-changes-when-the-detector-reuses-its-arrays-for-the-next-page',
+                              f'{desc}: after page {k + 1} was processed by the same extractor, on page 1: {diff}', case)
+                return
+        inputs = [(b + shift, o + shift) for b, o in base]
+        kk, dd = (key, desc) if not k else (f'{key}/page-{k + 1}-of-one-extractor', f'{desc}; page {k + 1} (content moved by {shift.tolist()})')
+        if not (ids_only(out, ctx, kk, dd, case) if ml else check_regions(out.regions, inputs, ctx, kk, dd, case, check_presence=False)):
+            return
+        if not k:
+            kept = snapshot(out.regions)
+    ctx.outcome(('extractor-pages', [sum(len(r.lines) for r in p.regions) for p in pages]))
+    if kept:
+        ctx.tag('first-page-kept-while-the-extractor-processes-the-next-page')
+    if len({sum(len(r.lines) for r in p.regions) for p in pages}) > 1:
+        ctx.violation('wholly-inside-line-always-placed', f'{key}/pages-of-one-extractor/different-number-of-lines',
+                      f'{desc}: {[sum(len(r.lines) for r in p.regions) for p in pages]} lines on pages with the same content (moved)', case)
+
+
 def make_extractor(dr, dl, ml, mo):
     """a LayoutExtractor for the given options: the real constructor on a configuration section, with only the layout network and the worker
     pool replaced; if the constructor cannot be driven that way, the attributes it sets are set by hand"""
@@ -388,6 +622,8 @@ def make_extractor(dr, dl, ml, mo):
 def check_extractor(case, ctx):
     from pero_ocr.core.layout import PageLayout, RegionLayout
     from pero_ocr.document_ocr.page_parser import LayoutExtractor
+    if case.get('pages'):
+        return check_extractor_pages(case, ctx)
     dr, dl, ml, mo = case['extractor']
     scen = SCENARIOS[case['scenario']]
 
@@ -494,6 +730,8 @@ def check_case(case, ctx):
         check_extractor(case, ctx)
     elif 'simple' in case:
         check_simple(case, ctx)
+    elif 'comb' in case:
+        check_comb(case, ctx)
     else:
         check_assign(case, ctx)
 
@@ -504,13 +742,21 @@ def describe(tier):
                 'assign_lines_to_regions; 16 option combinations x 3 stub-detection scenarios through LayoutExtractor.process_page; 3 through '
                 'TextlineExtractorSimple. state = distinct configuration. Non-trivial: >= 2 regions with >= 2 placed lines; counters for multi-piece '
                 'intersections and wholly-inside lines. Fault sweep: every call of the library to a GEOS operation fails once (two error classes), '
-                'counted per fault point, per returned result, and per returned result where a baseline runs through the hull of a concave region outside it.',
-        'bounds': BOUNDS[tier], 'alphabets': {'regions': REGIONS, 'baselines': LINES, 'heights': HEIGHTS, 'geos_errors': GEOS_ERRORS},
+                'counted per fault point, per returned result, and per returned result where a baseline runs through the hull of a concave region outside it. '
+                'Histories (edit-placed / refill, two pages of one extractor with a buffer-re-using stub detector) and the comb sub-sweep (notches of two depths '
+                'x baseline levels x height pairs) as described in the module docstring; counters for kept results, second calls and for the comb corner '
+                'where the longest baseline piece lies outside the largest outline piece.',
+        'bounds': BOUNDS[tier], 'alphabets': {'regions': REGIONS, 'baselines': LINES, 'heights': HEIGHTS, 'geos_errors': GEOS_ERRORS, 'histories': HISTORIES,
+                                             'comb': {'slots': COMB_SLOTS, 'tips': COMB_TIPS, 'levels': COMB_LEVELS, 'heights': COMB_HEIGHTS}},
         'assumptions': ['invalid region polygons are judged against their convex hull', 'merged lines (MERGE_LINES) are only checked for containment and ids',
-                        'after an injected failure of a geometry operation any exception is accepted and no line is demanded; everything placed is judged as always'],
+                        'after an injected failure of a geometry operation any exception is accepted and no line is demanded; everything placed is judged as always',
+                        'histories compare what the caller holds with copies taken before the next action (never the arguments); the caller edits only baseline and outline arrays of placed lines, the stub detector re-uses only its baseline and outline arrays (heights and region polygons are new objects)'],
         'min_nontrivial': 100,
         'required_tags': ['merge-lines-on-tilted-text-without-merging', 'integer-or-float32-detections', 'several-regions-several-placed-lines', 'several-pieces', 'wholly-inside', 'extractor-pages-with-lines',
                           'merge-lines-coverage', 'geos-failure-injected', 'result-returned-after-geos-failure',
                           'result-returned-after-geos-failure-baseline-in-hull-of-concave-region-outside-it', 'geos-failure-injected-in-extractor',
-                          'page-returned-after-geos-failure'],
+                          'page-returned-after-geos-failure',
+                          'placed-line-edited-in-place-others-kept', 'second-call-same-detection-objects', 'first-result-kept-while-detection-arrays-are-refilled',
+                          'history-with-several-placed-lines', 'first-page-kept-while-the-extractor-processes-the-next-page',
+                          'comb-baseline-in-several-pieces', 'comb-outline-and-baseline-cut-differently', 'comb-longest-baseline-piece-outside-largest-outline-piece'],
     }
